@@ -157,7 +157,8 @@ def native_runs(cdef, interp, seed, n_runs, inputs=None):
             # an exception raised INSIDE the library (innermost Python frame in the repository's package) on inputs the
             # harness considers valid is a failed run-time contract, not a broken checker
             frames = traceback.extract_tb(e.__traceback__)
-            inner = [f.filename for f in frames if "/site-packages/" not in f.filename and "/lib/python" not in f.filename]
+            inner = [f.filename for f in frames if "/site-packages/" not in f.filename and "/lib/python" not in f.filename
+                     and f.filename.startswith("/") and f.filename.endswith(".py")]      # (compiled extension frames have no path)
             if inner and "/inference/" in inner[-1] and "/verif/" not in inner[-1]:
                 res["failures"].extend(vc.failures)
                 res["failures"].append({"obligation": f"{cdef.prop}.{cdef.name}.no_unexpected_raise",
